@@ -85,16 +85,25 @@ def prepare(repo, tag, append_to=None, harnesses=None):
 CHECK_RE = re.compile(r'^Check (\d+): (\S+)\n\s+- Status: (\w+)\n\s+- Description: "(.*)"\n\s+- Location: (.*)$', re.M)
 
 
-def tree_hash(repo):
+def tree_hash(repo, harness=None):
+    """content hash of everything a harness verdict depends on: the repo sources, support.rs, the harness module that
+    defines it (only that one is compiled in, see prepare), the module map and this file"""
     import hashlib
     h = hashlib.sha256()
     files = []
+    only = None
+    if harness is not None:
+        m = module_of(harness)
+        if m:
+            only = {'support.rs', m}
     for root, _, fs in os.walk(os.path.join(repo, 'src')):
         for f in fs:
             files.append(os.path.join(root, f))
     files += [os.path.join(repo, 'Cargo.toml'), os.path.join(repo, 'Cargo.lock')]
     for root, _, fs in os.walk(os.path.join(VERIF, 'kani')):
         for f in fs:
+            if only is not None and f.endswith('.rs') and f not in only:
+                continue
             files.append(os.path.join(root, f))
     files.append(os.path.abspath(__file__))
     for f in sorted(files):
@@ -108,13 +117,14 @@ def run_cached(repo, harnesses, tag='default', timeout=900, jobs=4):
     the same inputs give the same verdict.  VERIF_NO_KANI_CACHE=1 disables it."""
     if os.environ.get('VERIF_NO_KANI_CACHE') == '1':
         return run(repo, harnesses, tag, timeout, jobs)
-    key = tree_hash(repo)
-    cdir = os.path.join(VERIF, '.cache', 'kani-results', key)
-    os.makedirs(cdir, exist_ok=True)
+    cdirs = {}
+    for h in harnesses:
+        cdirs[h] = os.path.join(VERIF, '.cache', 'kani-results', tree_hash(repo, h))
+        os.makedirs(cdirs[h], exist_ok=True)
     out = {}
     todo = []
     for h in harnesses:
-        p = os.path.join(cdir, h + '.json')
+        p = os.path.join(cdirs[h], h + '.json')
         if os.path.exists(p):
             out[h] = json.load(open(p))
             out[h]['cached'] = True
@@ -125,7 +135,7 @@ def run_cached(repo, harnesses, tag='default', timeout=900, jobs=4):
         for h, r in res.items():
             out[h] = r
             if r['status'] in ('ok', 'fail'):
-                json.dump(r, open(os.path.join(cdir, h + '.json'), 'w'))
+                json.dump(r, open(os.path.join(cdirs[h], h + '.json'), 'w'))
     return out
 
 
